@@ -70,13 +70,16 @@ def _params_ok(rate, bin_, win):
     return (rate * bin_).__floor__() >= 1
 
 
-def _mk(t, lab, ids, rate, bin_, win, sym, ldt='int64', tdt='float64'):
+def _mk(t, lab, ids, rate, bin_, win, sym, ldt='int64', tdt='float64', symdef=False):
     """tdt = how the spike times are handed to phylib: a float64 array, a float32 array (every time must be a
     float32; correlograms() converts to float64 BEFORE multiplying by the rate), or a Python list of floats"""
     assert _params_ok(rate, bin_, win), (rate, bin_, win)
-    return {'kind': 'ccg', 'inp': {'t': list(t), 'lab': list(lab), 'ids': None if ids is None else list(ids),
-                                   'rate': _fr(rate), 'bin': _fr(bin_), 'win': _fr(win), 'sym': bool(sym),
-                                   'ldt': ldt, 'tdt': tdt}}
+    c = {'kind': 'ccg', 'inp': {'t': list(t), 'lab': list(lab), 'ids': None if ids is None else list(ids),
+                                'rate': _fr(rate), 'bin': _fr(bin_), 'win': _fr(win), 'sym': bool(sym),
+                                'ldt': ldt, 'tdt': tdt}}
+    if symdef and sym:
+        c['inp']['symdef'] = True      # call without the symmetrize argument (its default is True)
+    return c
 
 
 def _mkr(lab, ids, bin_, dur, ldt='int64'):
@@ -130,6 +133,7 @@ def generate(tier, rng):
         cases.append(_mk([1875 * 16777000, 1875 * 16777001, 1875 * 16777003], [4, 4, 1], None, 30000,
                          F(1, 16), F(1, 4), sym, tdt='float32'))
         cases.append(_mk([0, 2, 2, 5], [4, 1, 4, 1], [1, 4], 1, 2, 4, sym, tdt='list'))
+        cases.append(_mk([0, 0, 1, 3], [4, 1, 4, 1], [1, 4], 1, 1, 2, sym, symdef=True))   # symmetrize left to its default
     for ids in ([4, 1, 9], [9, 4, 1], [4, 9, 1], [1, 4], None):
         cases.append(_mkr([4, 1, 4, 4], ids, F(1, 4), 2))
     cases.append(_mkr([], [4, 1], 1, 1))
@@ -264,7 +268,7 @@ def _random_ccg(rng, nmax, small=False, big=False):
             rng.shuffle(ids)
         sym = rng.random() < .5
         ldt = rng.choice(['int64', 'int64', 'int32', 'uint32', 'list'])
-        return _mk(t, labels, ids, rate, bin_, win, sym, ldt, tdt)
+        return _mk(t, labels, ids, rate, bin_, win, sym, ldt, tdt, symdef=rng.random() < .25)
     raise RuntimeError('no admissible random parameters')
 
 
@@ -350,9 +354,9 @@ def _run_case(case):
                 return ('regime', 'times are not float32 values')
         else:
             tarr = np.array(times, dtype=np.float64)
+        kw = {} if i.get('symdef') else {'symmetrize': i['sym']}
         out = correlograms(tarr, _labels(i['lab'], i['ldt']),
-                           cluster_ids=i['ids'], sample_rate=fr, bin_size=float(b), window_size=float(w),
-                           symmetrize=i['sym'])
+                           cluster_ids=i['ids'], sample_rate=fr, bin_size=float(b), window_size=float(w), **kw)
         out = np.asarray(out)
         if out.ndim != 3 or out.dtype.kind not in 'iu':
             raise TypeError('correlograms returned ndim=%d dtype=%s' % (out.ndim, out.dtype))
@@ -437,7 +441,7 @@ def dist(case, obs):
         out.append('ccg.n_spikes=' + _bucket(len(t)))
         out.append('ccg.n_clusters=%d' % (len(ids) if ids is not None else len(labs)))
         out.append('ccg.equal_times=%s' % (len(set(t)) < len(t)))
-        out.append('ccg.symmetrize=%s' % i['sym'])
+        out.append('ccg.symmetrize=%s' % ('default' if i.get('symdef') else i['sym']))
         rate, b, w = F(*i['rate']), F(*i['bin']), F(*i['win'])
         out.append('ccg.rate=%s' % ('1' if rate == 1 else 'pow2' if _pow2(rate.numerator) else 'non-dyadic'))
         bs = (rate * b).__floor__()
@@ -570,7 +574,7 @@ def repro(case):
             "times = np.array([float(F(s) / rate) for s in samples], dtype=np.float64)\n"
             "labels = np.array(%r, dtype=np.int64)\n"
             "print(correlograms(times, labels, cluster_ids=%r, sample_rate=float(rate), bin_size=%r,\n"
-            "                   window_size=%r, symmetrize=%r))\n"
+            "                   window_size=%r, symmetrize=%r))   # times dtype / default symmetrize: see case['inp']\n"
             "# entry [i, j, k] (one-sided) must be #{a < b : labels[a] == ids[i], labels[b] == ids[j],\n"
             "#   (samples[b] - samples[a]) // int(rate * bin) == k}\n" % (
                 i['t'], i['rate'][0], i['rate'][1], i['lab'], i['ids'], float(F(*i['bin'])),
